@@ -22,14 +22,15 @@ EV = {0: 'Enq', 1: 'Dropped', 2: 'Dispatch', 3: 'Requeue', 4: 'Handler', 5: 'Han
 UT = {1: 'SETUP', 2: 'REFRESH', 3: 'SHOW', 4: 'SEPARATOR', 5: 'PROMPT', 7: 'INPUT', 8: 'CLOSED', 10: 'MODAL_RETURN',
       11: 'REFUSED', 12: 'READY', 13: 'GOT', 14: 'MARK', 15: 'STACK', 16: 'ASK', 17: 'OP', 18: 'REQ', 19: 'ACTION'}
 
-MON = {"C04": 4, "C05": 5, "C06": 6, "C07": 7, "C08": 8, "C18": 18, "C17": 17}
+MON = {"C04": 4, "C05": 5, "C06": 6, "C07": 7, "C08": 8, "C18": 18, "C17": 17, "C09": 9}
 # which user-event tags / loop events each property's correspondence compares
 PROJ_U = {
     "C04": {1, 2, 3, 4, 15, 17}, "C05": {1, 2, 3, 7, 10, 12, 15, 17}, "C06": {5, 7, 12, 18}, "C07": {7, 19, 17, 18, 10},
-    "C08": {1, 2, 3, 8, 15, 17}, "C18": {5, 11, 12, 13, 16}, "C17": {3, 4},
+    "C08": {1, 2, 3, 8, 15, 17}, "C18": {5, 11, 12, 13, 16}, "C17": {3, 4}, "C09": {8, 15, 17, 10},
 }
 PROJ_L = {
     "C04": {24}, "C05": {7, 8, 9, 24}, "C06": {17, 24}, "C07": {24}, "C08": {24}, "C18": {17, 24}, "C17": {24},
+    "C09": {5, 7, 8, 9, 12, 13, 14, 15, 16, 24},
 }
 
 
@@ -57,6 +58,10 @@ def mon_case(prop_code, case, trace):
 def monitors(code, pairs):
     out = []
     CH = 1500
+    if code == 9:     # C09 on application sessions: the loop-level acceptor chk_C09 (Monitors.v) on the session's trace
+        for a in range(0, len(pairs), CH):
+            out += lib.model_run("mon", [[9, t] for c, t in pairs[a:a + CH]])
+        return out
     for a in range(0, len(pairs), CH):
         out += lib.model_run("smon", [mon_case(code, c, t) for c, t in pairs[a:a + CH]])
     return out
@@ -96,6 +101,8 @@ def nontrivial(prop, res):
         return any((e[1] == 11) or (e[1] == 5 and e[2][1] == 1) or (e[1] == 12 and e[2][1] == 0) for e in us)
     if prop == "C17":
         return tags.count(3) >= 2
+    if prop == "C09":      # the application ended (or was told to) while a modal level was open or screens remained
+        return any(e[0] == 12 or (e[0] == 5 and e[3] == [1]) for e in res[1]) and any(e[0] == 7 for e in res[1])
     return False
 
 
@@ -142,6 +149,11 @@ def gen_cases(prop, tier, rng):
     for k in range(n // 3):
         # C17 (what the framework writes during a session): also the overlapping-prompt family, where a prompt is re-printed
         cases.append(screen_gen.gen_focus_case(rng, "C18" if (prop == "C17" and k % 2) else prop))
+    if prop == "C07":
+        # ~15 % sessions with the REAL stock dialogs of render/adv_widgets.py (YesNoDialog as quit dialog, ...): 7-element cases,
+        # the model runs on the specs of coq/theories/AdvWidgets.v (harness/adv_specs.py, checks/adv_corr.py)
+        for k in range(n // 4):
+            cases.append(screen_gen.gen_adv_case(rng, with_password=(k % 3 == 0)))      # PasswordDialog: an answer that is neither True, False nor None
     return cases
 
 
@@ -166,7 +178,7 @@ def run(chk, tier, prop):
     models = []
     CH = 2000
     for a in range(0, len(kept), CH):
-        models += lib.model_run("screen", kept[a:a + CH])
+        models += lib.model_run("screen", [c[:6] for c in kept[a:a + CH]])       # c[6], when present: kinds (worker side only)
     verdicts = monitors(MON[prop], [(c, i[1]) for c, i in zip(kept, kimpl)])
     nbad = 0
     for c, i, m, v in zip(kept, kimpl, models, verdicts):
@@ -218,7 +230,7 @@ def run(chk, tier, prop):
     # sessions on which the implementation did not come back
     for c in hangs[:20]:
         c2 = copy.deepcopy(c); c2[0] = 4000
-        m = lib.model_run("screen", [c2])[0]
+        m = lib.model_run("screen", [c2[:6]])[0]
         spins = m[0] and m[0][-1] == 5
         if spins:
             chk.hist("hang:model-diverges-too(F14)")
@@ -251,7 +263,7 @@ def replay(path, prop):
     if i[0] in ("HANG", "ERROR"):
         print("implementation:", i[0]); return 1
     c2 = copy.deepcopy(c); c2[0] = 100 + 6 * len(i[1])
-    m = lib.model_run("screen", [c2])[0]
+    m = lib.model_run("screen", [c2[:6]])[0]
     v = monitors(MON[prop], [(c, i[1])])[0]
     print("outcomes impl/model:", i[0], m[0])
     print("acceptor on the implementation trace:", "REJECTED at %d" % v[1] if v[0] == 0 else "accepted")
